@@ -1,5 +1,6 @@
 """Shared driver: generate plans from one seed, execute them on the worker
 pool, judge, match known findings, shrink, gate by replay, write evidence."""
+import itertools
 import json
 import os
 import subprocess
@@ -93,35 +94,52 @@ def main_for(scn, prop, argv):
         print("REPLAY class=none hash=%s" % res["hash"])
         return 0
 
-    plans = scn.generate(ctx)
-    if args.limit:
-        plans = plans[:args.limit]
-    print("  %d simulated runs planned" % len(plans), flush=True)
-    results = runner.pool_map(scn.execute, plans, ctx.jobs)
-    wall_runs = time.monotonic() - t0
-
-    if args.hashes:
-        with open(args.hashes, "w") as f:
-            for p, r in zip(plans, results):
-                f.write("%s %s %s\n" % (plan_hash(p), r["hash"], r["abstract"]))
-
+    plans_iter = iter(scn.generate(ctx))
     known = findings.load()
     known_hit = {}
     new = {}
     other = {}
     harness_faults = []
-    for p, r in zip(plans, results):
-        for hf in r.get("harness_faults", []):
-            harness_faults.append((p, hf))
-        for v in r["violations"]:
-            if v["property"] != prop:
-                other.setdefault(v["property"], []).append(v)
-                continue
-            e = findings.match(prop, v["key"], known)
-            if e is not None:
-                known_hit.setdefault(json.dumps(e, sort_keys=True), [e, 0])[1] += 1
-            else:
-                new.setdefault(viol_key(v), []).append((p, r, v))
+    cov = scn.Cov(ctx)
+    nruns = 0
+    hashes = open(args.hashes, "w") if args.hashes else None
+    pool = runner.Pool(ctx.jobs)
+    try:
+        while True:
+            batch = list(itertools.islice(plans_iter, 40000))
+            if args.limit is not None:
+                batch = batch[:max(0, args.limit - nruns)]
+            if not batch:
+                break
+            results = pool.map(scn.execute, batch)
+            nruns += len(batch)
+            for p, r in zip(batch, results):
+                cov.add(p, r)
+                if hashes:
+                    hashes.write("%s %s %s\n" % (plan_hash(p), r["hash"], r["abstract"]))
+                for hf in r.get("harness_faults", []):
+                    harness_faults.append((p, hf))
+                for v in r["violations"]:
+                    if v["property"] != prop:
+                        other.setdefault(v["property"], []).append(v)
+                        continue
+                    e = findings.match(prop, v["key"], known)
+                    if e is not None:
+                        known_hit.setdefault(json.dumps(e, sort_keys=True), [e, 0])[1] += 1
+                    else:
+                        lst = new.setdefault(viol_key(v), [])
+                        if len(lst) < 50:
+                            lst.append((p, r, v))
+                        else:
+                            lst.append(None)
+            if nruns >= 40000:
+                print("  ... %d runs, %d violation class(es) so far, %.0fs" % (nruns, len(new), time.monotonic() - t0), flush=True)
+    finally:
+        pool.close()
+    if hashes:
+        hashes.close()
+    print("  %d simulated runs executed" % nruns, flush=True)
+    wall_runs = time.monotonic() - t0
 
     for _, (e, n) in sorted(known_hit.items()):
         print("KNOWN-FINDING: property=%s %s (%d runs)" % (prop, e["what"], n))
@@ -166,13 +184,13 @@ def main_for(scn, prop, argv):
 
     wall = time.monotonic() - t0
     if not args.no_evidence:
-        cov = scn.coverage(ctx, plans, results)
-        cov.setdefault("runs_per_hour", int(len(plans) / max(wall_runs, 1e-6) * 3600))
+        cov = cov.finish()
+        cov.setdefault("runs_per_hour", int(nruns / max(wall_runs, 1e-6) * 3600))
         cov.setdefault("seeds_per_hour", cov["runs_per_hour"])
         cov["repo"] = build.repo_id()
         cov["known_findings_printed"] = [e["what"] for _, (e, n) in sorted(known_hit.items())]
         cov["real_vs_stub"] = scn.REAL_VS_STUB
         write_evidence(prop, ctx.tier, seed, scn.LEVEL[prop], cov, wall, len(new), scn.ASSUMPTIONS)
     print("check %s: %d runs, %d new violation class(es), %d known finding(s), %.1fs" %
-          (prop, len(plans), len(new), len(known_hit), wall), flush=True)
+          (prop, nruns, len(new), len(known_hit), wall), flush=True)
     return exit_code
